@@ -108,7 +108,10 @@ CLAIMED['C04'] = (
     'expands prf+(SKEYSEED, Ni|Nr|SPIi|SPIr) and the seven keys are its consecutive slices in the order '
     'd, ai, ar, ei, er, pi, pr with the lengths the negotiated PRF / integrity algorithm / cipher prescribe, built '
     'from transforms of the chosen proposal; generate_child_sa_key_material slices prf+(SK_d, seed) in the order '
-    'ei, ai, er, ar with AH taking no encryption key.  Evaluated facts: the PRF / integrity / cipher tables carry the '
+    'ei, ai, er, ar with AH taking no encryption key; the responder\'s IKE_SA negotiation '
+    '(_process_ike_sa_negotiation_request, verified) feeds the key schedule Ni from the request, the Nr it answers with, '
+    'SPIi = peer SPI, SPIr = own SPI, the DH secret of its own and the received KE value, the old SK_d and the chosen '
+    'proposal (ghost observers).  Evaluated facts: the PRF / integrity / cipher tables carry the '
     'IANA numbers and truncations, digest sizes, the five MODP primes equal the RFC 3526 closed form '
     '2^n - 2^(n-64) - 1 + 2^64(floor(2^(n-130) pi) + c), groups 19-21 are P-256/384/521.',
     'HMAC, AES and the DH primitives are the cryptography library (T2/T3: uninterpreted); the fixed-width encoding of '
@@ -214,7 +217,9 @@ CLAIMED['C11'] = (
     'Proof: IkeSa._select_best_sa_proposal returns intersection(mine, p) for the FIRST peer proposal p for which it is '
     'not None and raises NoProposalChosen iff it is None for all of them (loop invariant), with every chosen transform in '
     'the local proposal; Proposal.get_transform returns a transform of the requested type that is an element of the '
-    'proposal.  BOUNDED (labelled, not proved): Proposal.intersection equals an independent RFC 7296 2.7 reference (one '
+    'proposal; IkeSa._process_ike_sa_negotiation_request (verified) goes on only if the KE payload is in the group of the '
+    'chosen proposal (else InvalidKePayload) and chooses through _select_best_sa_proposal.  '
+    'BOUNDED (labelled, not proved): Proposal.intersection equals an independent RFC 7296 2.7 reference (one '
     'transform per locally required type, present in both by type/id/key length, first in local preference order, '
     'number and SPI of the peer proposal, None if any type is missing or protocols differ) on every ordered pair of '
     'proposals over a 6-transform universe up to length 3 (+ length 4 over two types): about 9 x 10^5 calls.',
@@ -238,10 +243,17 @@ CLAIMED['C02'] = (
     'message | nonce | prf(SK_p, IDType|RESERVED|IDdata) -- with prf(prf(psk, "Key Pad for IKEv2"), octets) for PSK and '
     'the private key for RSA; _verify_auth_payload returns normally ONLY IF the received AUTH data equals that value '
     'under the configured peer PSK (method 2) or verifies under the configured peer public key (method 1) over exactly '
-    'those octets, and raises AuthenticationFailed on every other path (wrong method, missing credential, mismatch).',
-    'Which message bytes, nonce, identity and SK_p the four call sites pass (own IKE_SA_INIT bytes, the OTHER side\'s '
-    'nonce, the presented ID, SK_pi / SK_pr by role) and the ID comparison with the configured identity are in the IKE_AUTH '
-    'handlers, ASSUMED at this stage: the establishment-implies-valid-AUTH theorem over histories is not decided.  '
+    'those octets, and raises AuthenticationFailed on every other path (wrong method, missing credential, mismatch).  '
+    'The initiator\'s handler IkeSa.process_ike_auth_response is VERIFIED (234 obligations) against these contracts and the '
+    'Message-ID-window contract every handler owes: it returns normally -- and marks the IKE_SA ESTABLISHED -- only after '
+    'exactly one successful verification (ghost observers of the arguments) over the IKE_SA_INIT RESPONSE this endpoint '
+    'stored, its OWN nonce as the parser finds it in the request it stored, the IDr payload of this very message, SK_pr, '
+    'and the AUTH payload of this message, and that IDr equals the configured peer identity in type and data.',
+    'The responder\'s handler (process_ike_auth_request: same two calls mirrored) and generate_ike_auth_request stay ASSUMED '
+    '(their proof needs a fact about concatenated payload chains that was not brought within reach), so the '
+    'establishment-implies-valid-AUTH theorem is decided for the initiator side of one call only, not over histories.  '
+    'Message.parse is ASSUMED to be a deterministic function of the bytes (named parsed(data)); payload lookup is an '
+    'ASSUMED one-line contract.  '
     'HMAC and RSA are uninterpreted (T3); RsaPrivateKey.sign / RsaPublicKey.verify are TRUSTED contracts.',
     'DESIGN.md section 6 C02')
 CLAIMED['C01'] = (
@@ -257,6 +269,23 @@ CLAIMED['C01'] = (
     'library\'s.  get_network is an ASSUMED contract.' + TIERB_NOTE,
     'DESIGN.md section 6 C01')
 
+CLAIMED['C18'] = (
+    'Proof of the responder-side gate, for every request, secret, address and IKE_SA state: '
+    'IkeSa._process_ike_sa_negotiation_request (verified, 327 obligations) raises CookieRequired exactly on the paths '
+    'where a cookie secret is armed and the request does not carry, as its first COOKIE notification, '
+    'HMAC-SHA256(secret, SPIi | Ni | packed source address) computed from ITS OWN SPI, nonce and the address it came '
+    'from; when it raises, NOTHING has changed -- no proposal chosen, no key material, and the ghost counter of '
+    'Diffie-Hellman operations is untouched (the DH classes are TRUSTED contracts that count key generations and '
+    'shared-secret computations) -- and the exception carries exactly that expected cookie; on every normal return the '
+    'cookie condition held.  Mutations (address dropped from the hash, comparison inverted, DH before the check) fail '
+    'named obligations.',
+    'Not decided: that the controller arms the secret iff the half-open count exceeds the threshold (the count is a '
+    'generator sum in dispatch_message, not stated), that the caller turns CookieRequired into a bare COOKIE notification '
+    'and that the responder IKE_SA is discarded (process_ike_sa_init_request / _process_request, ASSUMED handler), and the '
+    'initiator retry with the cookie placed first (process_ike_sa_init_response, ASSUMED).  Payload / notify lookup are '
+    'ASSUMED one-line contracts over uninterpreted functions; HMAC is uninterpreted.' + TIERB_NOTE,
+    'DESIGN.md section 6 C18')
+
 NA_REASON = {
     'C09': 'not decided: collisions, absence of deadlock and agreement of the two endpoints after quiescence are statements '
            'over every interleaving of two state machines, i.e. over histories of the eight exchange handlers; contracts '
@@ -269,11 +298,6 @@ NA_REASON = {
            'IkeSa.process_acquire were not brought under contract in the time available.  Only the bounded builder / parser '
            'items of C14 (bounded-create-policies: three policies per protect entry with index << 3 | OUT, selectors, '
            'protocol, mode, endpoints; bounded-flush; bounded-parse-acquire) touch it, and they are counted under C14.',
-    'C18': 'not decided: the cookie gate and the KE check live in IkeSa._process_ike_sa_negotiation_request and the '
-           'initiator retry in process_ike_sa_init_response; bringing them under contract needs models of the '
-           'Diffie-Hellman objects and of payload lookup over the payload union that were not finished, and the arming '
-           'clause of dispatch_message (cookie_secret handed to the new IKE_SA iff the half-open count exceeds the '
-           'threshold) was not stated.  No other technique was substituted.',
 }
 NOT_YET ='not yet claimed: contracts for this property are still being brought under the verifier (DESIGN.md section 6)'
 
